@@ -755,6 +755,44 @@ macro_rules! vec_freeze_case {
         }
     };
 }
+// C18 "round trips through Bytes and back": freeze() followed by BytesMut::from of the (unique) result is a pure relabelling - no
+// byte-buffer allocation, same allocation, same capacity - for every shape of the inline form, including the EMPTY handle that
+// still owns capacity (the recycling buffer right after clear()).
+macro_rules! vec_roundtrip_case {
+    ($name:ident, $off:expr, $len:expr) => {
+        counting! {
+            pub fn $name() {
+                unsafe {
+                    let (m, g) = st_vec_at($off, $len);
+                    let p0 = m.ptr.as_ptr();
+                    let cap0 = m.capacity();
+                    let a0 = N_ALLOC_BYTEBUF;
+                    let b = m.freeze();
+                    let m2 = BytesMut::from(b);
+                    assert!(N_ALLOC_BYTEBUF == a0);
+                    assert!(m2.len() == g.len);
+                    assert!(m2.capacity() == cap0);
+                    assert!(m2.ptr.as_ptr() == p0);
+                    if g.len > 0 {
+                        let i = any_below(g.len);
+                        assert!(m2[i] == g.data[g.off + i]);
+                    }
+                    drop(m2);
+                    end_reached!();
+                }
+            }
+        }
+    };
+}
+// @h props=C18,C07,C03 tier=quick flags=leak group=step note=round_trip_of_the_EMPTY_inline_buffer_with_capacity(off=0)
+vec_roundtrip_case!(vec_roundtrip_empty, 0, 0);
+// @h props=C18,C07,C03 tier=quick flags=leak group=step note=round_trip_of_the_empty_inline_buffer_after_advance(off=3)
+vec_roundtrip_case!(vec_roundtrip_empty_off, 3, 0);
+// @h props=C18,C07,C03 tier=quick flags=leak group=step note=round_trip_with_spare_capacity_and_offset
+vec_roundtrip_case!(vec_roundtrip_spare_off, 2, 3);
+// @h props=C18,C07,C03 tier=thorough flags=leak group=step note=round_trip_of_a_full_inline_buffer(promotable)
+vec_roundtrip_case!(vec_roundtrip_full, 0, V);
+
 // @h props=C01,C02,C03,C07,C18 tier=quick flags=leak group=step note=freeze_full_vec(len==cap,off=0)_becomes_promotable
 vec_freeze_case!(vec_freeze_full, 0, V);
 // @h props=C01,C02,C03,C07,C18 tier=quick flags=leak group=step note=freeze_vec_with_spare_capacity_and_offset_becomes_shared+advance
